@@ -467,7 +467,7 @@ pub fn gen_session(tape: &[u8]) -> Vec<Line> {
 // completed nothing - the session without the line must show the same for EVERY later line, including lines whose value
 // the language leaves open (U1: a line that ends in a declaration). Implementation against itself.
 
-const RELATION_PREFIX: [&str; 4] = ["stel a = 10", "stel i = 0; stel rij = [1, 2]", "functie f(x) { x + a }", "stel t = \"tekst\""];
+const RELATION_PREFIX: [&str; 5] = ["stel a = 10", "stel i = 0; stel rij = [1, 2]", "functie f(x) { x + a }", "stel t = \"tekst\"", "functie f4(x, y, z) { stel s = x + y; stel u = [s, z]; u[0] + u[1] }"];
 
 /// (failing line, the successful line that makes the same completed assignments; None = it completed nothing)
 const FAILING_LINES: [(&str, Option<&str>); 22] = [
@@ -495,7 +495,9 @@ const FAILING_LINES: [(&str, Option<&str>); 22] = [
     ("-a; !a", None),
 ];
 
-const LATER_LINES: [&str; 16] = [
+const LATER_LINES: [&str; 18] = [
+    "f4(1, 2, 3)",
+    "f4(f4(1, 1, 1), f(2), f4(a, a, a))",
     "stel b = 2",
     "b",
     "a",
@@ -566,7 +568,16 @@ fn relation_case(failing: &str, same_as: Option<&str>, later: &[&str]) -> Result
 fn failed_line_relation(rep: &mut Report, seed: u64) {
     use proptest::prelude::RngCore;
     let mut runner = crate::tape::runner(seed.wrapping_mul(15_485_863), 1);
-    for (failing, same_as) in FAILING_LINES {
+    // failing lines that have many values pending when they fail (a list under construction, arguments, nested calls)
+    let mut big: Vec<(String, Option<&str>)> = Vec::new();
+    for n in [100usize, 30_000, 65_000, 65_534] {
+        big.push((format!("[{}1 / 0]", "0, ".repeat(n)), None));
+        big.push((format!("[{}a / 0]", "t, ".repeat(n)), None));
+    }
+    for n in [50usize, 200, 254] {
+        big.push((format!("f({}1 / 0)", "f(".repeat(n)), None));
+    }
+    for (failing, same_as) in big.iter().map(|(a, b)| (a.as_str(), *b)).chain(FAILING_LINES) {
         // every later line directly after the failing one, and generated sequences of 2-5 later lines
         let mut tails: Vec<Vec<&str>> = LATER_LINES.iter().map(|l| vec![*l]).collect();
         for _ in 0..24 {
@@ -780,6 +791,13 @@ fn repl_driver(rep: &mut Report, ctx: &Ctx) {
         for b in &alpha {
             sessions.push(vec![alpha[0].text(), a.text(), b.text()]);
         }
+    }
+    // long lines: the prompt has to take a line as one line however long it is
+    for n in [1_000usize, 4_090, 4_096, 4_100, 9_000, 70_000] {
+        sessions.push(vec![format!("stel lijst = [{}1]", "1, ".repeat(n / 3)), "lengte(lijst)".to_string(), "lijst[-1] + 41".to_string()]);
+        sessions.push(vec![format!("stel tekst = \"{}é\"", "ab".repeat(n / 2)), "lengte(tekst)".to_string()]);
+        sessions.push(vec!["stel a = 5".to_string(), format!("a + 1 //{}", " commentaar".repeat(n / 11)), "a * 2".to_string()]);
+        sessions.push(vec!["stel a = 5".to_string(), format!("{}a", " ".repeat(n)), format!("a{}", "; a".repeat(n / 3))]);
     }
     let mut runner = crate::tape::runner(ctx.seed.wrapping_mul(553_105_253), 1);
     for _ in 0..ctx.pick(1_500u32, 30_000u32) {
